@@ -349,6 +349,47 @@ def verdict_sig(v):
     return "%s/%s" % (v.get("clause", "?"), s) if s else v.get("clause", "?")
 
 
+TIMED_FAMILIES = {"life", "c18", "sess", "neg", "comp", "c08", "c07"}
+CONFIRM_RUNS = 4
+
+
+def _confirm(ctx, sig, v, fam):
+    """Replay the scenario of verdict v alone, up to CONFIRM_RUNS times; True when the same signature shows again
+    (or when the replay itself cannot be run: an observation is never dismissed on an infrastructure problem)."""
+    d = os.path.join(ctx.tmp, "confirm-%d" % (abs(hash(sig)) % 100000))
+    os.makedirs(d, exist_ok=True)
+    rp = os.path.join(d, "cand.json")
+    with open(rp, "w") as f:
+        json.dump({"property": ctx.pid, "sig": sig, "verdict": v, "family": fam[0], "scenario": fam[1], "driver_args": fam[2],
+                   "seed": ctx.seed, "tier": ctx.tier}, f)
+    env = dict(os.environ)
+    env["VERIF_NO_CONFIRM"] = "1"
+    env["VERIF_EVID"] = os.path.join(d, "evid")
+    for i in range(CONFIRM_RUNS):
+        try:
+            r = subprocess.run([os.path.join(VERIF, "bin", "check"), ctx.pid, "--tier", ctx.tier, "--replay", rp], env=env,
+                               stdout=subprocess.PIPE, stderr=subprocess.STDOUT, text=True, timeout=600)
+        except Exception as e:
+            ctx.log("confirm: replay failed to run (%s): keeping the observation" % e)
+            return True
+        if r.returncode == 1:
+            rd = os.path.join(d, "evid", "replay")
+            sigs = set()
+            if os.path.isdir(rd):
+                for fn in os.listdir(rd):
+                    try:
+                        sigs.add(json.load(open(os.path.join(rd, fn))).get("sig"))
+                    except Exception:
+                        pass
+            if sig in sigs or any(x and x.split("/")[0] == sig.split("/")[0] for x in sigs):
+                ctx.log("confirm: sig=%s reproduced in replay %d" % (sig, i + 1))
+                return True
+        elif r.returncode != 0:
+            ctx.log("confirm: replay exited %d: keeping the observation" % r.returncode)
+            return True
+    return False
+
+
 def finish(ctx, prop_filter=None):
     """Turn verdicts into KNOWN-FINDING / VIOLATION lines, write evidence, return exit code."""
     known, _ = load_known()
@@ -371,14 +412,25 @@ def finish(ctx, prop_filter=None):
         by_sig.setdefault(verdict_sig(v), []).append(v)
     nviol, nknown = 0, 0
     lines = []
+    unconfirmed = []
+    nconfirm = 0
     for sig, lst in sorted(by_sig.items()):
         if (ctx.pid, sig) in known:
             nknown += 1
             lines.append("KNOWN-FINDING: property=%s %s [sig=%s, %d occurrence(s) this run]" % (ctx.pid, known[(ctx.pid, sig)], sig, len(lst)))
             continue
-        nviol += 1
         v = lst[0]
         fam = ctx.scen_by_tid.get(v.get("tid"))
+        # Families that run a real client against real time: an observation made once among thousands of scenarios
+        # on a loaded machine must reproduce when its scenario is replayed alone before it is reported.
+        if (fam and fam[0] in TIMED_FAMILIES and not ctx.replay and not os.environ.get("VERIF_NO_CONFIRM")
+                and len(lst) <= 2 and nconfirm < 6):
+            nconfirm += 1
+            if not _confirm(ctx, sig, v, fam):
+                unconfirmed.append({"sig": sig, "occurrences": len(lst), "tid": v.get("tid"), "scenario": fam[1]})
+                ctx.log("UNCONFIRMED sig=%s: observed %d time(s), not reproduced in %d replays of its scenario; not reported" % (sig, len(lst), CONFIRM_RUNS))
+                continue
+        nviol += 1
         rp = os.path.join(EVID, "replay", "%s-%d.json" % (ctx.pid, nviol))
         with open(rp, "w") as f:
             json.dump({"property": ctx.pid, "sig": sig, "occurrences": len(lst), "verdict": v,
@@ -389,6 +441,8 @@ def finish(ctx, prop_filter=None):
                                                                    json.dumps(v.get("detail"))[:600]))
     for ln in lines:
         print(ln, flush=True)
+    if unconfirmed:
+        ctx.notes["unconfirmed_observations"] = unconfirmed
     write_evidence(ctx, nviol, nknown, other)
     return 1 if nviol else 0
 
